@@ -184,6 +184,10 @@ var allocProgs = []Prog{
 	{"unary-logic", `x := -a; y := !a; z := ^b; w := a && b; v := a || b; out := [x, y, z, w, v, a == b, a != b]`, false},
 	{"calls", `f := func(x, ...r) { return x + len(r) }; g := func() { return f }; out := g()(a, b, 1) + len([a]) + int("3")`, false},
 	{"for-in-kinds", `n := 0; for c in "ab" { n += 1 }; for k, v in {x: a} { n += v }; for x in bytes("ab") { n += x }; out := n`, false},
+	{"closure-captures-2", `mk := func(p, q) { return func(x) { return p*x + q } }; f := mk(a, b); out := [f(2), f(3), [a]]`, false},
+	{"closure-captures-3", `mk := func(p, q) { r := p + q; return func(x) { return [p, q, r, x] } }; f := mk(a, b); out := f(1) + f(2)`, false},
+	{"closure-nested-captures", `mk := func(p, q) { return func(u) { return func(v) { return [p + u, q + v] } } }; out := mk(a, b)(1)(2) + mk(b, a)(3)(4)`, false},
+	{"closure-in-loop", `fs := []; for i := 0; i < 2; i++ { j := i + a; k := j + b; fs = append(fs, func() { return [i, j, k] }) }; out := fs[0]() + fs[1]()`, false},
 	{"string-build", `out := ""; for i := 0; i < 3; i++ { out += "x" + i }; o2 := out[0:2] + 'c'`, false},
 }
 
